@@ -362,6 +362,12 @@ theorem model_step_has_table_effect (O : Ops μ ρ) (K : Nat) (st : State μ ρ)
   ⟨step_sameOutside O K st op, fun x hx => step_fillOnly O K st op x hx,
    fun hok x hx => step_clears O K st op x hx hok⟩
 
+/-- … and the table is not an over-approximation: on concrete two-user solvers of the exact
+    `1 × 1` rational interpretation (kernel-evaluated) every field the table lists for an
+    operation is really changed by that operation. -/
+theorem model_effect_table_is_tight : tight = true := by
+  decide +kernel
+
 /-- The dependency table `specDeps` IS what the invariants encode: `Coherent` is the conjunction
     of the clauses of `_W`/`_W_H`, `_full_W_H`, `_full_W` (the clause of `_full_F` is
     `FullFDerived`), and the clause of a derived field reads that field and the fields `specDeps`
